@@ -10,13 +10,22 @@ import (
 	"github.com/dolthub/go-mysql-server/vh/internal/stats"
 )
 
+// kfReplaceEmpty is the id of the only C33 finding (see notes/C33.md).
+const kfReplaceEmpty = "C33-replace-empty-subject"
+
 // TestC33Known re-checks the law "REGEXP_REPLACE substitutes exactly the reported matches" on
 // fixed witnesses inside the region the random search excludes (finding
 // C33-replace-empty-subject: empty subject, pattern that matches the empty string).
 func TestC33Known(t *testing.T) {
 	st := stats.New("C33", "witness")
 	defer st.Flush()
-	const id = "C33-replace-empty-subject"
+	const id = kfReplaceEmpty
+	holds := func(what string) {
+		st.Class("witness-holds:" + id)
+		if kf.Listed(id) {
+			t.Logf("STALE: finding %s is listed but its witness now satisfies the property: %s", id, what)
+		}
+	}
 	deviates := func(what, got, want string) {
 		st.Class("witness-deviates:" + id)
 		st.NonTrivial(nil, what)
@@ -46,7 +55,7 @@ func TestC33Known(t *testing.T) {
 			if row[3] != "s:X" {
 				deviates(q, row[3], "s:X")
 			} else {
-				st.Class("witness-holds:" + id)
+				holds(q)
 			}
 		}
 	}
@@ -69,6 +78,8 @@ func TestC33Known(t *testing.T) {
 	}
 	if out != "X" {
 		deviates("regex.Replace(\"X\", 1, 0) on subject \"\" with pattern a*", out, "X")
+	} else {
+		holds("regex.Replace on the empty subject")
 	}
 }
 
